@@ -8,7 +8,8 @@ import json, os, re, shutil, subprocess, sys, time
 
 ID = sys.argv[1]
 ns = [int(x) for x in sys.argv[2:]] or [1, 2]
-SRC = f"/tmp/seed-{ID}/out"
+ROUND = int(os.environ.get("SEED_ROUND", "1"))   # round r of seeding: worktree /tmp/seed<r>-<ID>, kept as <ID>-(n + 2(r-1))
+SRC = f"/tmp/seed{ROUND if ROUND > 1 else ''}-{ID}/out"
 TARGETS = {"hll": ["hll_test"], "theta": ["theta_test", "tuple_test"], "tuple": ["tuple_test"], "cpc": ["cpc_test"], "kll": ["kll_test"],
            "req": ["req_test"], "quantiles": ["quantiles_test"], "fi": ["fi_test"], "count": ["count_min_test"],
            "sampling": ["var_opt_sampling_test", "ebpps_sampling_test"], "tdigest": ["tdigest_test"], "filters": ["bloom_filter_test"],
@@ -42,9 +43,10 @@ for n in ns:
     patch, dcpp = f"{SRC}/change{n}.diff", f"{SRC}/demo{n}.cpp"
     if not (os.path.exists(patch) and os.path.exists(dcpp)):
         print(f"{ID}-{n}: missing files"); continue
-    dst = f"/verif/seeded/{ID}-{n}"
+    dn = n + 2 * (ROUND - 1)
+    dst = f"/verif/seeded/{ID}-{dn}"
     os.makedirs(dst, exist_ok=True)
-    scratch = f"/tmp/vf-si-{ID}-{n}"
+    scratch = f"/tmp/vf-si-{ID}-{dn}"
     shutil.rmtree(scratch, ignore_errors=True); os.makedirs(scratch)
     sh(f"cd /repo && tar cf - --exclude=_build --exclude=build --exclude=.git . | (cd {scratch} && tar xf -)")
     ran = {}
@@ -72,8 +74,8 @@ for n in ns:
     need = ""
     m2 = re.search(r"(?:needed for it to manifest|What is needed)[^\n]*\n(.*?)(?=\n\*\*|\n#+ |\Z)", (m.group(1) if m else readme), re.S | re.I)
     if m2: need = re.sub(r"\s+", " ", m2.group(1)).strip()[:900]
-    meta = {"property": ID, "source": f"independent sub-agent seed-{ID} (given only the property text and a scratch worktree)", "components": comps,
+    meta = {"property": ID, "source": f"independent sub-agent seed{ROUND if ROUND > 1 else ''}-{ID} (given only the property text" + (", one-line titles of the round-1 changes to avoid" if ROUND > 1 else "") + " and a scratch worktree)", "components": comps,
             "needs_to_manifest": need, "confirmed": ok, "ran": ran}
     json.dump(meta, open(f"{dst}/meta.json", "w"), indent=1)
     shutil.rmtree(scratch, ignore_errors=True)
-    print(f"{ID}-{n}: confirmed={ok} demo_orig={rc0} demo_mut={rc1} tests={ran['existing_tests_with_change']['passed']} comps={comps}")
+    print(f"{ID}-{dn}: confirmed={ok} demo_orig={rc0} demo_mut={rc1} tests={ran['existing_tests_with_change']['passed']} comps={comps}")
